@@ -282,13 +282,66 @@ func (r *persistRule) checkRecord(e *Engine, st *State, fc *FrameCtx, in ssa.Ins
 		v := stripConv(rv)
 		idx := 0
 		var call *ssa.Call
+		planField := -1
 		if ex, isEx := v.(*ssa.Extract); isEx {
 			idx = ex.Index
 			call, _ = ex.Tuple.(*ssa.Call)
+		} else if fl, isFl := v.(*ssa.Field); isFl {
+			// a field of a small "plan" struct the helper returns by value
+			call, _ = stripConv(fl.X).(*ssa.Call)
+			planField = fl.Field
+		} else if ld, isLd := v.(*ssa.UnOp); isLd && ld.Op == token.MUL {
+			// … read from a local copy of that struct
+			if fa, isFA := ld.X.(*ssa.FieldAddr); isFA {
+				if a0, isAl := fa.X.(*ssa.Alloc); isAl {
+					if w := wholeStore(a0); w != nil {
+						call, _ = stripConv(w).(*ssa.Call)
+						planField = fa.Field
+					}
+				}
+			}
 		} else {
 			call, _ = v.(*ssa.Call)
 		}
-		if call != nil && call.Common().StaticCallee() != nil {
+		if call != nil && planField >= 0 && call.Common().StaticCallee() != nil {
+			if r.ix == nil {
+				r.ix = newIPIndex(r.p)
+			}
+			var found *ssa.Alloc
+			n := 0
+			psc := call.Common().StaticCallee()
+			if o := psc.Origin(); o != nil {
+				psc = o
+			}
+			for _, rt := range returnsOf(psc) {
+				if len(rt.Results) != 1 {
+					n = 99
+					continue
+				}
+				ret := rt.Results[0] // the literal itself (not resolved to a zero value)
+				ld, isLd := stripConv(ret).(*ssa.UnOp)
+				if !isLd || ld.Op != token.MUL {
+					n = 99
+					continue
+				}
+				lit, isAl := ld.X.(*ssa.Alloc)
+				if !isAl {
+					n = 99
+					continue
+				}
+				if sv := structLitField(lit, planField); sv != nil {
+					if k, isK := stripConv(sv).(*ssa.Const); isK && k.Value == nil {
+						continue
+					}
+					n++
+					found, _ = stripConv(sv).(*ssa.Alloc)
+				}
+			}
+			if n == 1 && found != nil {
+				al, ok = found, true
+				r.recCall = call
+			}
+		} else if call != nil && call.Common().StaticCallee() != nil {
 			if r.ix == nil {
 				r.ix = newIPIndex(r.p)
 			}
